@@ -118,6 +118,15 @@ ElemCopy::startElement(StylesheetExecutionContext&  executionContext) const
 
         if(XalanNode::ELEMENT_NODE == nodeType)
         {
+            // Where only text nodes can be created (the content of
+            // xsl:attribute, xsl:comment and xsl:processing-instruction),
+            // cloneToResultTree() has reported and ignored the element;
+            // its content is ignored with it.
+            if (executionContext.getCopyTextNodesOnly() == true)
+            {
+                return 0;
+            }
+
             ElemUse::startElement(executionContext);
 
             executionContext.copyNamespaceAttributes(*sourceNode);
@@ -162,7 +171,10 @@ ElemCopy::endElement(StylesheetExecutionContext& executionContext) const
 
     if(XalanNode::DOCUMENT_NODE != nodeType)
     {
-        if(XalanNode::ELEMENT_NODE == nodeType)
+        // No start tag was written where only text nodes can be
+        // created (see startElement()).
+        if(XalanNode::ELEMENT_NODE == nodeType &&
+           executionContext.getCopyTextNodesOnly() == false)
         {
             endExecuteChildren(executionContext);
 
